@@ -257,23 +257,37 @@ def gen_force_params(ctx=None, repo=REPO, lean=LEAN):
 SPEC = dict(
     prop="C16",
     proof_module="SimbodyProofs.C16",
-    sources=["SimbodyModel/Proto.lean", "SimbodyModel/Gen/ForceParams.lean", "SimbodyModel/C16.lean",
+    sources=["SimbodyModel/Proto.lean", "SimbodyModel/Gen/ForceParams.lean", "SimbodyModel/C16.lean", "SimbodyModel/C18.lean",
              "SimbodyProofs/C16_lemmas.lean", "SimbodyProofs/C16.lean", "Drivers/C16.lean"],
     flow="harness_first",
     gen=gen_force_params,
     n=dict(quick=250, thorough=20000),
     rtol=0.0, atol=0.0,
-    rule="case 0 = the F4 history; then 78 directed histories (realize(Acceleration) -> exactly one public State-level setter / "
+    rule="case 0 = the F4 history; then 83 directed histories (realize(Acceleration) -> exactly one public State-level setter / "
          "enable / disable -> realize(Acceleration), one per force type and setter, keys <Force>.<setter>.param_after_realize.history, "
-         "zdot under ....zdot.history); then n random multibody systems (1-3 bodies, 1-2 elements of a subject force type with "
-         "state parameters + background elements + Custom probe forces + optional Force::Gravity) with random histories of "
-         "8-25 operations from VERIF_SEED; records = operations; at `check` records udot, body/mobility forces, PE, KE are "
-         "compared with a freshly created State (P); O lines (stage, gravity cache validity / evaluations, probe call counts, "
-         "staleness) are compared exactly with the Lean model instantiated from the regenerated table",
-    partial="the theorems are about the cache protocol of GeneralForceSubsystem and Force::Gravity (results = snapshots of the "
-            "variables read); that each calcForce reads only what its class declares (position-only elements do not read u, z), "
-            "the matter subsystem's own lazy caches (covered by the C18 model: prerequisites) and constraints/locks/Euler-"
-            "quaternion options are carried by the P predicate on random histories only",
-    assumptions=["System::realize keeps system and subsystem stages equal (one stage number in the model); stage effects of "
-                 "variable changes are C18's upd_lowers_stage; the lazy Force::Gravity cache follows C18's cache_valid_iff"],
+         "zdot under ....zdot.history; incl. Force::Gravity exclusion changes at zero magnitude); then n random cases from "
+         "VERIF_SEED, two in three plain (1-3 Pin/Slider bodies, 1-2 elements of a subject force type with state parameters + "
+         "background elements + Custom probes (position, velocity, position+time, own state parameter) + optional Force::Gravity; "
+         "8-25 operations), one in three rich (Pin/Slider/Ball/Free bodies, 1-2 constraints, locks, Euler/quaternion option, event "
+         "witness; 10-27 operations incl. lock/lockAt/unlock, constraint enable/disable, setUseEulerAngles, explicit requests and "
+         "invalidations of the matter subsystem's lazy entries); records = operations; at `check` records udot, body/mobility "
+         "forces, PE, KE, zdot (rich: also multipliers, constraint errors, witness values, body kinematics, composite/articulated "
+         "inertias) are compared with a freshly created State (P); O lines (stage, gravity cache validity / evaluations, probe "
+         "call counts, the five is...Realized flags of the matter subsystem, staleness) are compared exactly with the Lean model "
+         "instantiated from the regenerated tables",
+    partial="(i) proved about the executed model: force totals after any history (GeneralForceSubsystem and Force::Gravity cache "
+            "protocol) given the table obligations; validity => currency of the matter subsystem's five lazy entries "
+            "(lazy_entries_depend_on_position_version) given matter_table_ok. (ii) predicate-only (P lines on the real API): that "
+            "each calcForce reads only what its class declares, elements with lazy caches of their own (LinearBushing, CableSpring: "
+            "only the table clause LazyRowOK is proved), udot/PE/KE/kinematics, multipliers, constraint errors, constraint enable "
+            "flags, locks, Euler/quaternion option, one q,u,t event witness, composite/articulated inertias (the model sees locks / "
+            "constraint flags / the Euler option only as 'an Instance- / Model-stage variable changed'). (iii) not covered: contact "
+            "elements (HuntCrossley, ElasticFoundation, SmoothSphereHalfSpace are table rows only), witnesses of library event "
+            "handlers, non-conforming user-written elements; the link between the C16 and C18 models is an executed cross-check "
+            "(the driver runs the matter entries on the C18 State model too and flags any disagreement in stage or validity on "
+            "every generated history), not a theorem; exact comparison of calcForce call counts / getNumEvaluations is performance "
+            "behaviour (a harmless caching refactor shows up as a correspondence mismatch)",
+    assumptions=["System::realize keeps system and subsystem stages equal (one stage number in the model); the stage effect of a "
+                 "variable change and the validity rule of lazy entries are hand transcriptions of the mechanism modelled in C18 "
+                 "(StateImpl.h); the driver cross-checks them against the C18 Lean model on every history (BRIDGE-MISMATCH token)"],
 )
